@@ -28,7 +28,12 @@ LEVEL_NOTE = ("PARTIAL: only the EDS parser and the RDS weighted-cluster branch 
               "Reading of 'every accepted route has a supported action': the code deliberately keeps routes whose action is neither "
               "`route` nor `non_forwarding_action` as ActionType=RouteActionUnsupported (gRFC A36: such a route fails the RPCs it matches); "
               "the monitor therefore demands: action type is one of the three kinds and a forwarding action has a plugin or clusters "
-              "of positive total weight. LocalityString (%q of three strings) is taken to be injective.")
+              "of positive total weight. LocalityString (%q of three strings) is taken to be injective. CDS invariants monitored on every "
+              "accepted ClusterUpdate include: LB policy JSON parses in the LB registry, and a ring_hash policy has minRingSize <= "
+              "maxRingSize <= 8388608 (finding F35, a legacy RING_HASH cluster with out-of-bounds sizes was accepted, is fixed in /repo "
+              "by e491411; reverting it makes the check fail again). The ring sizes are judged as the ring_hash parser reads them (0 = "
+              "unset: min 1024, max 4096): the residual F35b — an explicit minimum_ring_size 0 with maximum_ring_size < 1024 is still "
+              "accepted and later rejected by the parser — is a known finding.")
 GAP = "CDS/LDS/RDS-route validators not modelled; proto.Unmarshal trusted; no-panic is observed, not proved"
 ASSUMPTIONS = ["proto uint32 fields are < 2^32 (typing hypothesis of the theorem)", "fmt %q is injective on strings",
                "net.JoinHostPort brackets exactly the hosts containing ':'"]
@@ -149,8 +154,7 @@ def gen(rng, tier):
     ops.append("wc -")
     for _ in range(n // 10):
         ops.append("wc " + ",".join(str(rng.choice(W)) for _ in range(rng.randrange(1, 6))))
-    # cds ops travel in small cases: the check reports the first violation of a case, so a known
-    # finding (F19) must not hide a different violation behind it
+    # cds ops travel in one-op cases (historical: the check used to report only the first violation of a case)
     cds = [o for o in ops if o.startswith("gen cds")]
     rest = [o for o in ops if not o.startswith("gen cds")]
     for i, o in enumerate(cds):
